@@ -11,6 +11,7 @@ import (
 	"os"
 	"path/filepath"
 	"sort"
+	"strings"
 	"sync/atomic"
 
 	"github.com/grailbio/bigslice/exec"
@@ -67,22 +68,21 @@ func (s *combSpace) label() string {
 func (s *combSpace) alpha() alphabet { return s.al }
 
 func (s *combSpace) violate(h hist, scenario, class string, nspill int, what string, extra map[string]interface{}) {
-	sp := "no-spill"
-	switch {
-	case nspill == 1:
-		sp = "1-spill"
-	case nspill >= 2:
-		sp = "multi-spill"
+	// signature: universe + spill threshold + stage (state | Reader | WriteTo) + failure class;
+	// output vector size, internal sizes, history and number of spill files are in the detail.
+	stage := scenario
+	if i := strings.Index(stage, "/"); i > 0 {
+		stage = stage[:i]
 	}
-	sig := fmt.Sprintf("C09/combiner/%s/spill=%d/%s/%s/%s", s.kd.name, s.target, scenario, class, sp)
+	sig := fmt.Sprintf("C09/combiner/%s/spill=%d/%s/%s", s.kd.name, s.target, stage, class)
 	d := map[string]interface{}{
-		"object": "combiner", "universe": s.kd.name, "spill_threshold": s.target, "sizes": s.z,
+		"object": "combiner", "universe": s.kd.name, "spill_threshold": s.target, "sizes": s.z, "read_back_by": scenario,
 		"history": h.names(s.al), "keys": s.kd.describe()["keys"], "failure": what, "spill_files": nspill,
 	}
 	for k, v := range extra {
 		d[k] = v
 	}
-	s.r.Violate(sig, fmt.Sprintf("combiner(%s, spill threshold %d, %s) after %v then %s: %s", s.kd.name, s.target, s.z, h.names(s.al), scenario, what), d)
+	s.r.Violate(sig, fmt.Sprintf("combiner(%s, spill threshold %d, %s) after %v then %s (%d spill files): %s", s.kd.name, s.target, s.z, h.names(s.al), scenario, nspill, what), d)
 }
 
 // readAll drains a reader with an output frame of outSize rows.
